@@ -11,10 +11,102 @@ pub fn def() -> PropDef {
     PropDef {
         id: "C16",
         level: "exploration",
-        rule: "proptest tape -> 1..6 concurrent tasks with cloned handles of one real Store, each with a list of 1..25 operations write / read / notify_read over 1..4 keys (values unique per write), tape-chosen yields between operations, seeded scheduler; notify_reads are issued (enqueued) in place and awaited by helper tasks so that several waiters can be pending per key; optionally all handles are dropped and the store is reopened on the same path, then every key is read. Oracle: operations are numbered at issue; the store serialises commands in channel order, which equals issue order (fewer than 100 outstanding, cooperative budgeting disabled for the workers); replaying the log on a map: read = latest earlier write or none; notify_read = latest earlier write if any, else the first later write to the key, else still pending at quiescence; after reopen every written key reads its last value. Non-trivial: >= 2 waiters were pending on a key that was then written from another handle; distinct by op-list hash.",
-        assumptions: &["fewer than 100 commands outstanding, so that issue order equals the order in the store's channel"],
-        parts: vec![Part { name: "concurrent-ops", cfg_len: 1, tape_max: 260, quick: 50_000, thorough: 1_500_000, max_shrink_iters: 500, run }],
+        rule: "proptest tape -> 1..6 concurrent tasks with cloned handles of one real Store, each with a list of 1..25 operations write / read / notify_read over 1..4 keys (values unique per write), tape-chosen yields between operations, seeded scheduler; notify_reads are issued (enqueued) in place and awaited by helper tasks so that several waiters can be pending per key; optionally all handles are dropped and the store is reopened on the same path, then every key is read. Oracle: operations are numbered at issue; the store serialises commands in channel order, which equals issue order (fewer than 100 outstanding, cooperative budgeting disabled for the workers); replaying the log on a map: read = latest earlier write or none; notify_read = latest earlier write if any, else the first later write to the key, else still pending at quiescence; after reopen every written key reads its last value. Non-trivial: >= 2 waiters were pending on a key that was then written from another handle; distinct by op-list hash. (backlog) one task issues 90..260 writes back to back over 1..40 keys - more than the store's channel (capacity 100) holds -, and only after the last write returned 1..3 tasks with cloned handles read / notify_read the last-written, the first-written and random keys: each must give the last value written to its key. Non-trivial: more than 100 writes.",
+        assumptions: &["concurrent-ops part: fewer than 100 commands outstanding, so that issue order equals the order in the store's channel (the backlog part covers the full channel with a happens-after oracle)"],
+        parts: vec![
+            Part { name: "concurrent-ops", cfg_len: 1, tape_max: 260, quick: 50_000, thorough: 1_500_000, max_shrink_iters: 500, run },
+            Part { name: "backlog", cfg_len: 1, tape_max: 40, quick: 3_000, thorough: 100_000, max_shrink_iters: 100, run: run_backlog },
+        ],
     }
+}
+
+/// Backlog part: more commands than the store's channel holds (capacity 100). One task writes
+/// 90..260 values back to back (keys from a small set, so later writes overwrite earlier ones),
+/// each `write().await` returning before the next is issued; only after the last one returned,
+/// tasks with cloned handles read (and notify-read) the keys. Every such read is issued after the
+/// writes returned, so it must see the last value written to its key - whatever the channel's fill.
+fn run_backlog(case: &Case, _ctx: &Ctx) -> Outcome {
+    let mut t = Tape::new(&case.tape);
+    let nwrites = t.range(90, 260) as usize;
+    let nkeys = t.range(1, 40) as u8;
+    let writes: Vec<(u8, u32)> = (0..nwrites).map(|i| (t.below(nkeys as usize) as u8, i as u32 + 1)).collect();
+    let nreaders = t.range(1, 3) as usize;
+    let yield_before_read = t.chance(1, 2);
+    let mut last: HashMap<u8, u32> = HashMap::new();
+    for (k, v) in &writes {
+        last.insert(*k, *v);
+    }
+    // keys to read: the last written key first (the most likely to be overtaken), then others
+    let mut probe: Vec<u8> = vec![writes[nwrites - 1].0, writes[0].0];
+    for _ in 0..4 {
+        probe.push(t.below(nkeys as usize) as u8);
+    }
+    let dir = sim::scratch_dir("store-backlog");
+    let _g = sim::ScratchGuard(dir.clone());
+    let path = format!("{}/db", dir);
+    let (writes2, probe2) = (writes.clone(), probe.clone());
+    let got: Vec<(usize, u8, &'static str, Option<Vec<u8>>)> = sim::run_sim(case.cfg.first().copied().unwrap_or(0) as u64, || async move {
+        let store = Store::new(&path).expect("open store");
+        let mut w = store.clone();
+        let writer = tokio::spawn(async move {
+            for (k, v) in writes2 {
+                w.write(key(k), val(v)).await;
+            }
+        });
+        writer.await.expect("writer");
+        if yield_before_read {
+            tokio::task::yield_now().await;
+        }
+        let mut tasks = Vec::new();
+        for r in 0..nreaders {
+            let mut s = store.clone();
+            let keys = probe2.clone();
+            tasks.push(tokio::spawn(async move {
+                let mut out = Vec::new();
+                for (j, k) in keys.into_iter().enumerate() {
+                    if (j + r) % 2 == 0 {
+                        out.push((r, k, "read", s.read(key(k)).await.ok().flatten()));
+                    } else {
+                        // notify_read of a written key completes at once with the latest value
+                        let v = tokio::time::timeout(std::time::Duration::from_secs(5), s.notify_read(key(k))).await;
+                        out.push((r, k, "notify_read", v.ok().and_then(|x| x.ok())));
+                    }
+                }
+                out
+            }));
+        }
+        let mut all = Vec::new();
+        for h in tasks {
+            all.extend(h.await.expect("reader"));
+        }
+        all
+    });
+    let mut out = Outcome::default();
+    let hist = json!({"writes": nwrites, "keys": nkeys, "readers": nreaders, "last_write": {"key": writes[nwrites - 1].0, "value": writes[nwrites - 1].1}});
+    for (r, k, kind, v) in &got {
+        let want = last.get(k).map(|x| val(*x));
+        if want.is_none() {
+            // never written: read returns none, notify_read stays pending (timed out)
+            if v.is_some() {
+                out.violate("backlog-read-of-unwritten-key", format!("reader {}: {} of a key that was never written returned a value", r, kind), hist.clone());
+            }
+            continue;
+        }
+        if *v != want {
+            out.violate(
+                "read-after-returned-write-misses-it",
+                format!("reader {}: {} of key {} issued after all {} writes had returned gave {} instead of the last value written", r, kind, k, nwrites, if v.is_none() { "nothing" } else { "an older value" }),
+                hist.clone(),
+            );
+        }
+    }
+    if nwrites > 100 {
+        out.class("more-writes-than-channel-capacity");
+    }
+    out.nontrivial = nwrites > 100;
+    out.fingerprint = fnv(format!("{:?}|{}|{:?}", writes, nreaders, probe).as_bytes());
+    out.sample = json!({"writes": nwrites, "keys": nkeys, "readers": nreaders, "probed_keys": probe});
+    out
 }
 
 #[derive(Clone, Debug)]
